@@ -595,8 +595,8 @@ func runE2EInner(c *E2ECase, res *E2EResult) {
 					opts = append(opts, opt{p, false, ""})
 					if cl, _ := classify(p.ex); strings.HasPrefix(cl, "idx-") && faults < c.MaxFaults {
 						opts = append(opts, opt{p, true, ""})
-						if cl == "idx-put" {
-							// the PUT takes effect and is answered 500 (EPutLost of the model)
+						if cl == "idx-put" || cl == "idx-del" {
+							// the PUT / DELETE takes effect and is answered 500 (EPutLost / EDelLost of the model)
 							opts = append(opts, opt{p, true, "lost"})
 						}
 					}
@@ -618,7 +618,7 @@ func runE2EInner(c *E2ECase, res *E2EResult) {
 					fail = true
 					if c.FaultKinds {
 						switch {
-						case cl == "idx-put" && sched.Chance(1, 3):
+						case (cl == "idx-put" || cl == "idx-del") && sched.Chance(1, 3):
 							fkind = "lost"
 						case cl == "idx-del" && sched.Chance(1, 3):
 							fkind = "404"
